@@ -235,6 +235,8 @@ def run(ctx):
                 if mv and mv[1] == "Withdraw":
                     drawn.append(N(ix, mv[2]["amount"]))
             r = N(ix, p.ret)
+            if any(c[1] is True and tag(c[0]) == "op" and payload(c[0])[0] == "is_zero" and kids(c[0]) and N(ix, kids(c[0])[0]) == r for c in p.conds):
+                r = ("int", 0)   # the path has established that the returned figure is zero
             if drawn:
                 pushes = True
                 if r != drawn[0]:
